@@ -157,6 +157,10 @@ fn main() {
             for rt in &rts {
                 for (kinds, paths, half) in &plans {
                     let cfg = WorldCfg { mode, rt: *rt, kinds: kinds.clone(), with_shutdown: c17, with_half: *half };
+                    // quick tier: the two-client world is walked path by path in cancel-on-disconnect mode (where
+                    // one client's departure must not touch the other's handler) and covered transition by
+                    // transition in detached mode; the thorough tier walks every path in both
+                    let paths = &(*paths && !(ctx.tier == Tier::Quick && !c17 && kinds.len() >= 2 && mode == HandlerTaskMode::Detached));
                     let (hist, nstates, capped_enum) = if *paths {
                         let (h, c) = all_paths(&cfg, ctx.tier.pick(5000, 60000));
                         let (_, ns) = transition_cover(&cfg);
